@@ -848,3 +848,233 @@ func ruleElementwise(w *World, r *Report, fn string, pidx int) {
 		r.add("ELEMENTWISE", fn, w.Pos(f.Pos()), Discharged, fmt.Sprintf("%d loop-carried value(s): counter and accumulators only", n))
 	}
 }
+
+// ---------------------------------------------------------------- NOSKIP
+
+// ruleNoSkip: in every loop of fn each iteration that returns to the loop
+// header has recorded its element somewhere (append, map insert, or a call of
+// an accumulating method): an element dropped on some path makes the result
+// depend on what earlier elements happened to register.
+func ruleNoSkip(w *World, r *Report, fn string) {
+	r.Rule("NOSKIP", "every iteration of every loop of the merge pipeline records its element (append, map insert or HighSpatialID.Merge) before it returns to the loop header: no input ID, unit or group is silently dropped depending on the state built from earlier elements")
+	f := lookupByName(w, fn)
+	if f == nil {
+		r.add("NOSKIP", fn, "?", Unresolved, "function not found")
+		return
+	}
+	isEffect := func(in ssa.Instruction) bool {
+		switch x := in.(type) {
+		case *ssa.MapUpdate:
+			return true
+		case *ssa.Call:
+			if builtinName(x) == "append" {
+				return true
+			}
+			if g := calleeOf(x); g != nil && isSetter(w, g) {
+				return true
+			}
+		}
+		return false
+	}
+	check := func(kind string, k int, header, body *ssa.BasicBlock, blocks map[*ssa.BasicBlock]bool) {
+		stop := map[*ssa.BasicBlock]bool{}
+		n := 0
+		for b := range blocks {
+			for _, in := range b.Instrs {
+				if isEffect(in) {
+					stop[b] = true
+					n++
+				}
+			}
+		}
+		key := fmt.Sprintf("%s / %s loop#%d", fn, kind, k)
+		if n == 0 {
+			r.add("NOSKIP", key, w.Pos(header.Instrs[0].Pos()), Info, "loop without recording effect (not part of the pipeline)")
+			return
+		}
+		reach := simulate(body, stop, func(ssa.Value) (bool, bool) { return false, false })
+		if reach[header] {
+			r.add("NOSKIP", key, w.Pos(header.Instrs[0].Pos()), Violated, "an iteration can return to the loop header without recording its element (the element is dropped on that path)")
+		} else {
+			r.add("NOSKIP", key, w.Pos(header.Instrs[0].Pos()), Discharged, "every continuing iteration records its element")
+		}
+	}
+	for k, sr := range findSliceRanges(f) {
+		check("slice", k+1, sr.Header, sr.Body, sr.blocks())
+	}
+	for k, mr := range findMapRanges(f) {
+		check("map", k+1, mr.Header, mr.Body, mr.blocks())
+	}
+}
+
+// ---------------------------------------------------------------- CACHE-KEY
+
+// ruleCacheKey: a local map used as a memo (its looked-up value is used as
+// data and its stored values come from a call) must be keyed by a literal
+// that contains every argument of the memoised call that varies inside the
+// enclosing loop.
+func ruleCacheKey(w *World, r *Report, in map[*ssa.Function]bool) {
+	r.Rule("CACHE-KEY", "a local map whose looked-up values are used in place of a call result (a memo) is keyed by an array/struct literal (or the single varying argument itself) that contains every argument of the memoised call that changes from element to element: a key that omits one, or packs them lossily (shifts, sums), returns another element's result")
+	n := 0
+	for _, f := range w.ModFuncs {
+		if f.Synthetic != "" || f.Blocks == nil {
+			continue
+		}
+		can := w.IsCanary(f)
+		if !can && in != nil && !in[f] {
+			continue
+		}
+		name := w.FuncName(f)
+		ord := 0
+		instrs(f, func(ins ssa.Instruction) {
+			mm, ok := ins.(*ssa.MakeMap)
+			if !ok || mm.Referrers() == nil {
+				return
+			}
+			var updates []*ssa.MapUpdate
+			valueUsed := false
+			for _, ref := range *mm.Referrers() {
+				switch x := ref.(type) {
+				case *ssa.MapUpdate:
+					updates = append(updates, x)
+				case *ssa.Lookup:
+					if x.CommaOk {
+						if e0 := extractOf(x, 0); e0 != nil && hasRealReferrer(e0) {
+							valueUsed = true
+						}
+					} else if hasRealReferrer(x) {
+						if b, isB := x.Type().Underlying().(*types.Basic); !isB || b.Kind() != types.Bool {
+							valueUsed = true
+						}
+					}
+				}
+			}
+			if !valueUsed || len(updates) == 0 {
+				return
+			}
+			for _, mu := range updates {
+				// the stored value comes from a call?
+				var call *ssa.Call
+				for _, leaf := range phiLeaves(resolve(mu.Value)) {
+					switch y := leaf.(type) {
+					case *ssa.Call:
+						if builtinName(y) == "" {
+							call = y
+						}
+					case *ssa.Extract:
+						if c, ok := y.Tuple.(*ssa.Call); ok {
+							call = c
+						}
+					}
+				}
+				if call == nil {
+					// a struct/array literal of call results
+					if vals, ok := arrayLiteral(mu.Value); ok {
+						for _, v := range vals {
+							if ex, ok := resolve(v).(*ssa.Extract); ok {
+								if c, ok := ex.Tuple.(*ssa.Call); ok {
+									call = c
+								}
+							}
+						}
+					}
+				}
+				if call == nil {
+					continue
+				}
+				// a memo skips the call on a hit: the call runs only on the miss branch of a lookup
+				onMiss := false
+				for _, ref := range *mm.Referrers() {
+					lk, ok := ref.(*ssa.Lookup)
+					if !ok || !lk.CommaOk {
+						continue
+					}
+					okv := extractOf(lk, 1)
+					if okv == nil {
+						continue
+					}
+					for _, blk := range f.Blocks {
+						_, fl, ifi := ifSuccs(blk)
+						if ifi == nil || resolve(ifi.Cond) != ssa.Value(okv) {
+							continue
+						}
+						if fl == call.Block() || blockDominatedByEdge(f, blk, fl, call.Block()) {
+							onMiss = true
+						}
+					}
+				}
+				if !onMiss {
+					continue
+				}
+				ord++
+				n++
+				key := fmt.Sprintf("CACHE-KEY / %s / memo#%d", name, ord)
+				// varying arguments: defined inside a loop that contains the update
+				var loopBlocks map[*ssa.BasicBlock]bool
+				for _, sr := range findSliceRanges(f) {
+					if sr.blocks()[mu.Block()] {
+						loopBlocks = sr.blocks()
+					}
+				}
+				varying := []ssa.Value{}
+				for _, a := range call.Call.Args {
+					ai, isInstr := resolve(a).(ssa.Instruction)
+					if isInstr && loopBlocks != nil && loopBlocks[ai.Block()] {
+						varying = append(varying, a)
+					}
+				}
+				// key components
+				comps := []ssa.Value{mu.Key}
+				if vals, ok := arrayLiteral(mu.Key); ok {
+					comps = vals
+				} else if vals, ok := structLiteralFields(mu.Key); ok {
+					comps = vals
+				}
+				missing := ""
+				for _, a := range varying {
+					found := false
+					for _, c := range comps {
+						if equivValue(c, a) {
+							found = true
+						}
+					}
+					if !found {
+						missing = describeValue(a)
+					}
+				}
+				if missing != "" {
+					r.Add(Obligation{Rule: "CACHE-KEY", Key: key, Pos: w.Pos(mu.Pos()), Status: Violated, Detail: "the memo of " + shortInstr(call) + " is keyed by " + describeValue(mu.Key) + ", which does not contain the varying argument " + missing + " as a component", Canary: can})
+				} else {
+					r.Add(Obligation{Rule: "CACHE-KEY", Key: key, Pos: w.Pos(mu.Pos()), Status: Discharged, Detail: "memo key holds every varying argument of the memoised call", Canary: can})
+				}
+			}
+		})
+	}
+	r.Analysed["memo_maps"] = n
+}
+
+// structLiteralFields: values stored into the fields of a local struct that is then loaded.
+func structLiteralFields(v ssa.Value) ([]ssa.Value, bool) {
+	u, ok := v.(*ssa.UnOp)
+	if !ok || u.Op != token.MUL {
+		return nil, false
+	}
+	al, ok := u.X.(*ssa.Alloc)
+	if !ok {
+		return nil, false
+	}
+	if _, isStruct := al.Type().(*types.Pointer).Elem().Underlying().(*types.Struct); !isStruct {
+		return nil, false
+	}
+	var out []ssa.Value
+	for _, ref := range *al.Referrers() {
+		if fa, ok := ref.(*ssa.FieldAddr); ok {
+			for _, r2 := range *fa.Referrers() {
+				if st, ok := r2.(*ssa.Store); ok && st.Addr == fa {
+					out = append(out, st.Val)
+				}
+			}
+		}
+	}
+	return out, len(out) > 0
+}
